@@ -25,9 +25,11 @@ from . import REPO
 XL_DIR = os.path.join(REPO, 'xlcalculator') + os.sep
 
 
-class SimInterrupt(BaseException):
-    """Cancellation injected at a traced step (not an Exception on purpose:
-    no handler in the library may absorb or re-wrap it)."""
+class SimInterrupt(KeyboardInterrupt):
+    """Cancellation injected at a traced step.  It *is* a KeyboardInterrupt
+    (so `except KeyboardInterrupt` clean-up in the library runs as it would
+    for the real thing) and hence not an Exception: no `except Exception`
+    handler in the library may absorb or re-wrap it."""
 
 
 class SimBudget(BaseException):
